@@ -1,4 +1,5 @@
 import Pw.C13.CpdagInv
+import Pw.C13.OrientModel
 
 /-! # C13/C03 — `StationaryTimeSeriesCPDAG.orient_uncertain_edge` and CPDAG histories
 
@@ -11,34 +12,11 @@ def orient_uncertain_edge(self, u, v):
     self.add_edge(u, v, self._directed_name)      # through the mark guard
 ```
 
-The model composes the public `remove_edge` / `add_edge` of the C13 model in the same order; nothing is
-assumed about the intermediate state (if the guarded `add_edge` raised, the undirected edge would stay
+The model (`Pw/C13/OrientModel.lean`) composes the public `remove_edge` / `add_edge` of the C13 model in
+the same order; nothing is assumed about the intermediate state (if the guarded `add_edge` raised, the undirected edge would stay
 removed – `orient_atomic` proves that this does not happen in a state satisfying the invariant).
 `COp` adds the operation to the histories of the CPDAG. -/
 namespace C13
-
-/-- `sorted([u, v], key=lambda x: x[1])` -/
-def sortTime (u v : TNode) : TNode × TNode := if v.2 < u.2 then (v, u) else (u, v)
-
-def orientCpdag (s : St) (u v : TNode) : St × Bool :=
-  if !hasUnd (layerEdges s 1) u v then (s, true) else
-  let p := sortTime u v
-  let r := removeEdge cfgCpdag s (.one 1) p.1 p.2
-  if r.2 then (r.1, true) else addEdge cfgCpdag r.1 (.one 0) p.1 p.2
-
-/-- public operations of the StationaryTimeSeriesCPDAG -/
-inductive COp
-  | op (o : Op)
-  | orient (u v : TNode)
-  deriving Repr
-
-def cstep (s : St) : COp → St × Bool
-  | .op o => step cfgCpdag s o
-  | .orient u v => orientCpdag s u v
-
-def crun : St → List COp → List (St × Bool)
-  | _, [] => []
-  | s, op :: ops => let r := cstep s op; r :: crun r.1 ops
 
 /-- calling convention (see `Op.CpdagSafe`); `orient_uncertain_edge` names two different nodes -/
 def COp.Safe : COp → Prop
